@@ -133,9 +133,10 @@ def gen_registry(rng, tier):
     # directed (both tiers): gRPC clients (the nacos_rust_client crate) hold ephemeral instances through connections to
     # different nodes; the node one of them is connected to is killed: its instances must disappear from the others;
     # the node comes back, the client reconnects, everybody agrees again
-    g = ["up 3", "greg c1 3 svc3 10.0.0.5 80", "greg c2 1 svc3 10.0.0.6 80", "reg 2 svc3 10.0.0.7 80 1", "settle 3000", "listall svc3",
-         "kill 3"] + ["settle 5000", "beat 2 svc3 10.0.0.7 80"] * 6 + ["listall svc3", "start 3", "settle 12000", "beat 2 svc3 10.0.0.7 80",
-         "listall svc3"]
+    g = ["up 3", "greg c1 3 svc3 10.0.0.5 80", "greg c2 1 svc3 10.0.0.6 80", "settle 3000", "listall svc3",
+         # node 2 is restarted: it learns the instances of the gRPC clients from the other nodes' snapshots, not from a batch
+         "kill 2", "start 2", "settle 8000", "listall svc3",
+         "kill 3", "settle 30000", "listall svc3", "start 3", "settle 12000", "listall svc3"]
     cases.append(Case("registry-grpc-node-death", g, True, "boundary"))
     # directed (both tiers): an address changes its persistence class by re-registration (persistent -> ephemeral through
     # another node, and back): the acknowledged registration must be listed everywhere afterwards
